@@ -552,6 +552,9 @@ impl NamedFile {
                 if let Some(range) = HttpRange::parse(ranges_header, length)
                     .ok()
                     .and_then(|ranges| ranges.first().copied())
+                    // a zero-length range (e.g. a suffix range on an empty file) selects no bytes
+                    // and cannot be described by `Content-Range: bytes first-last/len`
+                    .filter(|range| range.length > 0)
                 {
                     ranged_req = true;
                     length = range.length;
